@@ -538,6 +538,44 @@ static size_t get_value_size(carquet_physical_type_t type, int32_t type_length) 
 }
 
 /* ============================================================================
+ * Helper: retained page buffers
+ * ============================================================================
+ *
+ * BYTE_ARRAY values returned to the caller point into the page buffer. One
+ * read call may span several pages, so the buffer of a finished page must stay
+ * alive until the caller issues the next call on this column reader.
+ */
+
+static void retire_page_data(carquet_column_reader_t* reader) {
+    if (!reader->page_data_for_values) {
+        return;
+    }
+    if (reader->num_retired_pages >= reader->retired_pages_capacity) {
+        int32_t new_cap = reader->retired_pages_capacity == 0
+                              ? 4 : reader->retired_pages_capacity * 2;
+        uint8_t** grown = realloc(reader->retired_page_data,
+                                  (size_t)new_cap * sizeof(uint8_t*));
+        if (!grown) {
+            /* Cannot keep it alive: fall back to releasing it now */
+            free(reader->page_data_for_values);
+            reader->page_data_for_values = NULL;
+            return;
+        }
+        reader->retired_page_data = grown;
+        reader->retired_pages_capacity = new_cap;
+    }
+    reader->retired_page_data[reader->num_retired_pages++] = reader->page_data_for_values;
+    reader->page_data_for_values = NULL;
+}
+
+void carquet_column_reader_release_retired_pages(carquet_column_reader_t* reader) {
+    for (int32_t i = 0; i < reader->num_retired_pages; i++) {
+        free(reader->retired_page_data[i]);
+    }
+    reader->num_retired_pages = 0;
+}
+
+/* ============================================================================
  * Helper: Load dictionary page (mmap path)
  * ============================================================================
  */
@@ -931,7 +969,7 @@ static carquet_status_t load_next_page_mmap(
      * which persists for the reader's lifetime, so no retention needed. */
     if (decompressed && reader->type == CARQUET_PHYSICAL_BYTE_ARRAY &&
         page_header.data_page_header.encoding == CARQUET_ENCODING_PLAIN) {
-        free(reader->page_data_for_values);
+        retire_page_data(reader);
         reader->page_data_for_values = decompressed;
     } else {
         free(decompressed);
@@ -1114,7 +1152,7 @@ static carquet_status_t load_next_page_fread(
                    page_header.data_page_header.encoding == CARQUET_ENCODING_PLAIN);
 
     if (retain) {
-        free(reader->page_data_for_values);
+        retire_page_data(reader);
         reader->page_data_for_values = page_data;
         /* Free compressed buffer only if it's a separate allocation */
         if (compressed && compressed != page_data) {
